@@ -51,6 +51,11 @@ def rand_update(rng):
 
 
 def cases(rng, tier):
+    for c in interleaved_cases(rng, tier):
+        yield c
+    # objects handed back by the library's own moves / shuffles (also with frozen sets, also from a parent whose cache is warm)
+    for l in core.childq_cases(rng, 90 if tier == "quick" else 600, ['html']):
+        yield Case([l], {"kind": "object-from-move"})
     lens = [1, 2, 9, 10, 11, 12, 49, 50, 51, 52, 99, 100, 101, 149, 150, 151, 250]
     n = 150 if tier == "quick" else 1500
     for i in range(n):
@@ -64,6 +69,25 @@ def cases(rng, tier):
             lines.append("setpal 1 " + dtok(d))
             lines.append("o 1 html")
         yield Case(lines, {"kind": "history-%d" % len(hist), "seq": s, "hist": hist}, nontrivial=len(hist) > 0)
+
+
+def interleaved_cases(rng, tier):
+    """two live objects; palette updates, read-only analyses and renderings interleaved on both - every rendering must use the
+    palette of ITS object as it is then (compared with the model, which keeps one palette per object)"""
+    for _ in range(60 if tier == "quick" else 500):
+        s = gen.rand_seq(rng, rng.choice(gen.KINDS), rng.randint(5, 40))
+        t = gen.rand_seq(rng, rng.choice(gen.KINDS), rng.randint(5, 40))
+        lines = ["new 1 " + s, "new 2 " + t]
+        for _k in range(rng.randint(2, 7)):
+            o = rng.choice([1, 2])
+            r = rng.random()
+            if r < 0.45:
+                d, _kind = rand_update(rng)
+                lines.append("setpal %d %s" % (o, dtok(d)))
+            elif r < 0.8:
+                lines.append("o %d %s" % (o, rng.choice(["kappa", "omega", "dmax", "kappaX s000045,s000044 s00004b,s000052", "fcr", "scd", "delta", "region"])))
+            lines.append("o %d html" % rng.choice([1, 2]))
+        yield Case(lines, {"kind": "two-objects-interleaved"})
 
 
 def check_html(seq, html, palette):
@@ -98,6 +122,9 @@ DEFAULT = {'A': 'black', 'C': 'black', 'D': 'red', 'E': 'red', 'F': 'orange', 'G
 
 
 def judge(case, reals, gens, specs):
+    if reals and reals[0][0] == "childq":
+        ok_c, why = core.judge_childq(reals[0])
+        return [] if ok_c else [("violation", 0, why)]
     out = []
     for i, (r, g, s) in enumerate(zip(reals, gens, specs)):
         if not core.match(r, s)[0]:
